@@ -770,6 +770,9 @@ func (v *fnVC) ret(i *ssa.Return, st *State) {
 	v.useLemmas(x)
 	nret := v.ordinal[i]
 	for k, c := range v.ct.Ensures {
+		if c.Ghost {
+			continue // ghost update performed by the contract itself, assumed at call sites
+		}
 		g := x.Bool(c.Expr)
 		v.oblige("post", fmt.Sprintf("post%s@ret%d", clauseTag(c, k), nret), v.propsOf(c), c.Expr, v.pos(i.Pos()), R, g, st)
 		v.obls[len(v.obls)-1].resultTerms = results
